@@ -620,4 +620,66 @@ func TestVerifRequests(t *testing.T) {
 		}
 	}
 	rqSequences(t, base, &id)
+	rqTwoClients(t, base, &id)
+}
+
+// rqTwoClients: two clients at the same time on one running source, one sending only valid trigger requests, the other
+// only requests that must be refused (channel -1).  Each caller must get the answer to ITS request: one valid request
+// answered with an error, or one refused request answered with success, is reported.
+func rqTwoClients(t *testing.T, base string, id *int) {
+	n := 1500
+	if os.Getenv("VERIF_TIER") != "quick" {
+		n = 20000
+	}
+	*id++
+	dir := filepath.Join(base, fmt.Sprintf("rq2c%d", *id))
+	os.MkdirAll(dir, 0775)
+	rig := rqNewRig(dir, false)
+	rig.mon.fast = true
+	rqSetCurrent(rig)
+	if err := rig.start(); err != nil {
+		t.Fatal(err)
+	}
+	type tally struct {
+		wrong    int
+		firstErr string
+		hung     bool
+	}
+	res := make([]tally, 2)
+	var wg sync.WaitGroup
+	for ci, c := range []rqCase{{Kind: "trigger", Arg: "valid"}, {Kind: "trigger", Arg: "negative"}} {
+		wg.Add(1)
+		go func(ci int, c rqCase) {
+			defer wg.Done()
+			for k := 0; k < n; k++ {
+				ret, msg, _ := rqCall(func() error { return rqIssue(rig.ctl, c, dir, 40) }, 5*time.Second)
+				if !ret {
+					res[ci].hung = true
+					return
+				}
+				if (ci == 0) != (msg == "") { // the valid client wants nil, the other an error
+					res[ci].wrong++
+					if res[ci].firstErr == "" {
+						res[ci].firstErr = msg
+					}
+				}
+			}
+		}(ci, c)
+	}
+	wg.Wait()
+	vEmit(vmap{"ev": "Case", "scen": *id, "timing": "running", "kind": "two-clients", "arg": "valid-side", "expect": "ok"})
+	vEmit(vmap{"ev": "Ret", "returned": !res[0].hung, "err": res[0].firstErr, "ms": 0, "wrong": res[0].wrong, "n": n})
+	pr := rig.probe(true)
+	pr["ev"] = "Probe"
+	vEmit(pr)
+	vEmit(vmap{"ev": "CaseEnd", "stopped": true})
+	*id++
+	vEmit(vmap{"ev": "Case", "scen": *id, "timing": "running", "kind": "two-clients", "arg": "refused-side", "expect": "err"})
+	e := "refused"
+	if res[1].wrong > 0 {
+		e = "" // at least one of the requests that must be refused was answered with success
+	}
+	vEmit(vmap{"ev": "Ret", "returned": !res[1].hung, "err": e, "ms": 0, "wrong": res[1].wrong, "n": n})
+	vEmit(vmap{"ev": "CaseEnd", "stopped": rig.stop()})
+	close(rig.stopHB)
 }
